@@ -57,19 +57,21 @@ theorem ilSimSteps_one (env : SimEnv) {k k1 : SimState} (hs : k.step (simHandler
     ilSimSteps env 1 k = k1 := by
   simp [ilSimSteps, hs]
 
-/-- the simulator on `precW0` with the delay script `[3]`, after 72 kernel steps: 10 rows written,
-every pending event is at instant 10 or later, the next event is the last block of the body of
+-- F13: 78 kernel steps / instant 11 (before the repair: 72 steps / instant 10; `precA` now holds
+-- its machine one step longer, so `precB` starts one step later)
+/-- the simulator on `precW0` with the delay script `[3]`, after 78 kernel steps: 11 rows written,
+every pending event is at instant 11 or later, the next event is the last block of the body of
 `precB` (process 14), the one after it the monitor's; the row the monitor then writes reports one
 task running -/
-theorem rowSim72 :
-    (ilSimSteps { delayScript := [3] } 72 (SimState.start precW0)).st.rows.length = 10 ∧
-    (∀ x ∈ (ilSimSteps { delayScript := [3] } 72 (SimState.start precW0)).heap, (10 : Time) ≤ x.time) ∧
-    ((ilSimSteps { delayScript := [3] } 72 (SimState.start precW0)).peek.map (·.pid)) = some 14 ∧
-    ((ilSimSteps { delayScript := [3] } 1 (ilSimSteps { delayScript := [3] } 72 (SimState.start precW0))).peek.map
+theorem rowSim78 :
+    (ilSimSteps { delayScript := [3] } 78 (SimState.start precW0)).st.rows.length = 11 ∧
+    (∀ x ∈ (ilSimSteps { delayScript := [3] } 78 (SimState.start precW0)).heap, (11 : Time) ≤ x.time) ∧
+    ((ilSimSteps { delayScript := [3] } 78 (SimState.start precW0)).peek.map (·.pid)) = some 14 ∧
+    ((ilSimSteps { delayScript := [3] } 1 (ilSimSteps { delayScript := [3] } 78 (SimState.start precW0))).peek.map
       (·.pid)) = some 0 ∧
-    (ilSimSteps { delayScript := [3] } 72 (SimState.start precW0)).st.active = [(0, precB)] ∧
-    (ilSimSteps { delayScript := [3] } 1 (ilSimSteps { delayScript := [3] } 72 (SimState.start precW0))).st.active = [] ∧
-    ((ilSimSteps { delayScript := [3] } 72 (SimState.start precW0)).st.mkRow 10).running = 1 := by
+    (ilSimSteps { delayScript := [3] } 78 (SimState.start precW0)).st.active = [(0, precB)] ∧
+    (ilSimSteps { delayScript := [3] } 1 (ilSimSteps { delayScript := [3] } 78 (SimState.start precW0))).st.active = [] ∧
+    ((ilSimSteps { delayScript := [3] } 78 (SimState.start precW0)).st.mkRow 11).running = 1 := by
   decide +kernel
 
 end Topsim
